@@ -121,7 +121,10 @@ class StubHTTPSession:
         body = self.client.body_for(self.resp)
         self.resp.body = file if isinstance(file, Body) else Body(file)
         if body:
+            # like the real Session.download(rewind=True): write, then seek back to where the file was
+            offset = self.resp.body.tell()
             self.resp.body.write(body)
+            self.resp.body.seek(offset)
         self.client.events.append(('download', self.resp.request.url_info.url))
         return self.resp
 
